@@ -313,6 +313,44 @@ def keys_gate(run):
             + ' '.join(l for l in out.split('\n') if 'error' in l.lower())[:300] + ' regenerated=%s' % (ks,)]
 
 
+def gen_gate(run, key, modname, getter, obligation, what):
+    """generic translator gate: harness/<modname>.py regenerates something from common.REPO, its Lean file is checked by the kernel"""
+    import importlib, subprocess, re
+    mod = importlib.import_module(modname)
+    cov = run.coverage
+    try:
+        res = getattr(mod, getter)(common.REPO)
+    except mod.TranslationError as e:
+        cov[key] = dict(status='refused', why=str(e))
+        return ['translator harness/%s.py refused the source: %s' % (modname, e)]
+    except Exception as e:
+        cov[key] = dict(status='error', why='%s: %s' % (type(e).__name__, e))
+        return ['translator harness/%s.py failed: %s: %s' % (modname, type(e).__name__, e)]
+    gdir = os.path.join(common.LEAN, '.lake', 'gen')
+    os.makedirs(gdir, exist_ok=True)
+    path = os.path.join(gdir, '%s_%d.lean' % (modname, os.getpid()))
+    open(path, 'w').write(mod.lean_file(res))
+    try:
+        r = subprocess.run(['lake', 'env', 'lean', path], cwd=common.LEAN, capture_output=True, text=True, timeout=600)
+        out = r.stdout + r.stderr
+    finally:
+        try: os.remove(path)
+        except OSError: pass
+    ok = r.returncode == 0 and 'error' not in out.lower()
+    axioms_ok = all(set(a.strip() for a in m.split(',') if a.strip()) <= common.STD_AXIOMS
+                    for m in re.findall(r"depends on axioms: \[([^\]]*)\]", out, flags=re.S))
+    cov[key] = dict(status='checked' if ok and axioms_ok else 'mismatch', obligation=obligation)
+    if ok and axioms_ok:
+        return []
+    return [what + ': ' + ' '.join(l for l in out.split('\n') if 'error' in l.lower())[:300] + ' regenerated=%s' % (str(res)[:300],)]
+
+
+def select_gate(run):
+    return gen_gate(run, 'translator_select', 'gen_select', 'program',
+                    'Gen.select = C09.selectProg by rfl; eligible_is_program, hopeful_is_program, elected_is_program, pending_is_program',
+                    'Candidates.select of droop/candidates.py, translated, is no longer the table lean/Props/C09Prog.lean proves the model selectors equal to')
+
+
 def count_property(run, spec):
     t0 = time.time()
     broken = lean_gate(run, THEOREMS.get(run.prop, []))
@@ -549,7 +587,7 @@ def C08(run):
 
 @prop('C09')
 def C09(run):
-    count_property(run, dict(rules=ALL, keys=['C09'], proj=proj_C09, quick=5000, thorough=150000, extra_gate=guard_gate))
+    count_property(run, dict(rules=ALL, keys=['C09'], proj=proj_C09, quick=5000, thorough=150000, extra_gate=lambda run: guard_gate(run) + select_gate(run)))
 
 
 @prop('C05')
